@@ -10,6 +10,7 @@ Two families (both are real Exo source pushed through the real front end):
                     private and shared allocations, window aliases, configuration reads and writes, guards),
                     optional sub-procedures containing par loops, optional `parallelize_loop` directives.
 
+(ParGen also builds triangular nests: inner bounds depending on the outer par variable.)
 POSITIONS: top | inseq (inside a seq loop) | inif | inelse | inpar (inside another par loop) | insub (in a
 sub-procedure called from the main procedure) | insubseq (sub-procedure, inside a seq loop) | deep
 (seq > if > par) | sched (written `seq`, made parallel with parallelize_loop) | schednest (same, nested in a
@@ -297,7 +298,7 @@ class ParGen:
     def nest(self, bufs, wbufs, ind, ctx, allow_sched=True):
         r = self.rng
         pos = r.choice(["top", "top", "inseq", "inif", "inelse", "inpar", "deep", "seqpar", "sched", "schednest",
-                        "const"])
+                        "const", "tri"])
         if ctx["insub"] and pos in ("sched", "schednest"):
             pos = "top"
         if not allow_sched and pos in ("sched", "schednest"):
@@ -363,6 +364,13 @@ class ParGen:
             lines.append(loop(iv, r.choice(["par", "par", "seq"]), lo, "n", ind + "    "))
             cur = ind + "        "
             vs = [(iv, "n"), (jv, "2")]
+        elif pos == "tri":      # triangular nest: the inner bounds depend on the outer par variable
+            jv = self.name("j")
+            lines.append(loop(jv, "par", "0", "n", ind))
+            lo2, hi2 = r.choice([("0", jv), (jv, "n"), ("0", "%s + 1" % jv)])
+            lines.append(loop(iv, r.choice(["seq", "par"]), lo2, hi2, ind + "    "))
+            cur = ind + "        "
+            vs = [(iv, "n"), (jv, "n")]
         elif pos == "deep":
             jv = self.name("j")
             lines.append(loop(jv, "seq", "0", "2", ind))
